@@ -197,7 +197,7 @@ def rand_case(rng):
 
 
 def gen(ctx):
-    cs = table()
+    cs = table() + pv.cross_kind_cases()
     n = 600 if ctx.tier == "quick" else 12000
     cs += [rand_case(ctx.rng) for _ in range(n)]
     return cs
@@ -260,7 +260,14 @@ def oracle(case, out):
                 if k not in held_before or kind not in ("pad", "reg"):
                     v.append(("unpaid-accepted", "delivery %d: upload without payment stored %s (held before: %s)"
                               % (i, pv.dumps(p), k in held_before)))
-    return v
+                else:
+                    prev = pv.dump_map(r["store_at_start"])[k]["val"].get("t")
+                    if prev != kind:
+                        v.append(("unpaid-replaced-other-kind", "delivery %d: upload without payment wrote a %s at %s, where the "
+                                  "node held a %s -- not an update of a mutable record it already holds" % (i, kind, k, prev)))
+            if r.get("store_after") is not None and r["store_after"] != r["store_at_start"] and not stored:
+                v.append(("unpaid-changed-store", "delivery %d: upload without payment changed the store without a write command" % i))
+    return v + pv.kind_change_violations(case, out)
 
 
 def nontrivial(case, out):
